@@ -1,6 +1,8 @@
 package sim
 
 import (
+	"fmt"
+
 	"bfeverif/harness/internal/vh"
 )
 
@@ -10,6 +12,7 @@ type Knobs struct {
 	Interleave bool // interleave invoke/finish of different requests
 	FinishPct  int  // per-attempt chance (percent) of a forward Finish verdict
 	ErrPct     int  // per-attempt chance (percent) of a transport error
+	ReplacePct int  // per-attempt chance (percent) that the forward callback replaces the backend
 }
 
 var subNames = []string{"a", "b", "c", "d"}
@@ -77,7 +80,16 @@ func Gen(r *vh.Rand, k Knobs) *Scenario {
 	if s.TotalWeight() <= 0 && !r.Chance(1, 20) {
 		s.Subs[len(s.Subs)-1].Weight = r.Range(1, 100)
 	}
-	s.W = s.HashW()
+	s.H = s.HashH()
+	switch r.Intn(20) {
+	case 0, 1, 2, 3, 4:
+		s.Bm = 1
+	case 5, 6, 7:
+		s.Bm = 2
+	}
+	if r.Chance(3, 10) {
+		s.Fn = r.Range(1, 3)
+	}
 	// requests
 	nr := r.Range(1, k.MaxReqs)
 	for i := 0; i < nr; i++ {
@@ -90,6 +102,8 @@ func Gen(r *vh.Rand, k Knobs) *Scenario {
 			a := Attempt{'g', '2'}
 			if r.Intn(100) < k.FinishPct {
 				a.Fwd = 'f'
+			} else if r.Intn(100) < k.ReplacePct {
+				a.Fwd = "xyzu"[r.Intn(4)]
 			} else if r.Chance(1, 12) {
 				a.Fwd = "rpc"[r.Intn(3)]
 			}
@@ -129,4 +143,10 @@ func Gen(r *vh.Rand, k Knobs) *Scenario {
 		}
 	}
 	return s
+}
+
+// Params renders the parameter section of an op for the client address `ip` (computing its hash).
+func Params(rm, cr, rl int, ip uint32, bm, fn int) string {
+	s := &Scenario{IP: ip}
+	return fmt.Sprintf("rm=%d,cr=%d,rl=%d,ip=%d,h=%d,bm=%d,fn=%d", rm, cr, rl, ip, s.HashH(), bm, fn)
 }
